@@ -65,6 +65,7 @@ PROBES: List[List[str]] = [
     ['"""two', 'lines"""', "q = q + 1"], ["'''a", "b", "c'''", "led.on()"], ["from Reduino.Core import (", "    pin_mode,", "    OUTPUT)", "q = q + 1"],
     ["import os, \\", "    sys", "r = 5"], ['"""one line"""', "q = q + 1"], ["from Reduino.Utils import (sleep,", "    map)", "led.set_brightness(7)"],
     ['"doc"; q = q + 1'], ["import time; q += 1"], ["pass; led.on()"], ["led.on(); pass"], ["from os import path; r = 5"], ['"a"; "b"'], ["print(q); q += 1"], ["...; r = 5"], ["global q; q = 9"],
+    ['"""two', 'lines""" ; q = q + 1'], ["from Reduino.Utils import (sleep,", "    map); led.set_brightness(7)"], ['"""a', 'b"""; r = 5; q = 2'],
     ['zs = "see target(COM9)"', "r = len(zs)"], ["mon.write(\"target('COM7')\")", "r = 4"], ['led.set_brightness(len("target(COM5)"))'],
     ["sv = Servo(10)", "sv.write(30)"], ["mon.write(f\"{q}\") ; q += 1"], ["r += 1  # trailing"], ["    "], ["# only a comment"], ["q = 3 \\", "    + 4"], ["mon.write(", "    q)"], ["y = [", "    7,", "    8]"],
 ]
